@@ -52,11 +52,13 @@ type isoDrv struct {
 	watchdog time.Duration
 	hot      [][3]int
 	// every bulkEvery-th step (on average) is a bulk clear episode; 0 = never
-	bulkEvery, nBulk int
-	ncmd             int
-	nErr             int
-	byOp             map[string]int
-	touched          map[int]bool
+	bulkEvery, nBulk   int
+	probeEvery, nProbe int
+	compact            bool
+	ncmd               int
+	nErr               int
+	byOp               map[string]int
+	touched            map[int]bool
 }
 
 func isoTup(ty, t, k int) int { return ((ty-1)*isoNT+(t-1))*isoNK + k }
@@ -361,7 +363,106 @@ func (d *isoDrv) bulkClear() {
 	d.one("clear", ty, t, k, 0, 0)
 }
 
+// limitProbe: one command whose key, sub-key or value length sits at a documented limit
+// (limit-1, limit, limit+1) or around the 16-bit length prefix (65535, 65536, 65537, and
+// 65536+n aliasing the n-byte pool key k as "k:<padding>").  Logged as op "limit" with the
+// lengths; the specification knows the limits and says refused / accepted, and nothing in
+// the world may change.  What an accepted probe wrote (always on a key outside the pools)
+// is removed again before the dump is taken.
+func (d *isoDrv) limitProbe() {
+	t := 1 + d.rng.Intn(isoNT)
+	table := d.tabs[t-1]
+	pad := func(n int, pre string) string {
+		if n <= len(pre) {
+			return pre[:n]
+		}
+		return pre + strings.Repeat("p", n-len(pre))
+	}
+	lens := []int{10239, 10240, 10241, 65535, 65536, 65537}
+	kl, kf, sl, vl := 0, 0, 0, 0
+	var r interface{}
+	u := isoTup(1, t, 1)
+	switch kind := d.rng.Intn(9); {
+	case kind < 2: // kv: the limit applies to the whole "table:key"
+		L := lens[d.rng.Intn(len(lens))]
+		if L-len(table)-1 < 4 {
+			return
+		}
+		key := table + ":" + pad(L-len(table)-1, "zzp")
+		kl, kf = L, L
+		r = d.wd.apply("set", key, "v1")
+		d.wd.apply("del", key)
+	case kind < 6: // collections: the limit applies to the key without its table
+		ty := 2 + d.rng.Intn(4)
+		u = isoTup(ty, t, 1)
+		var rk string
+		if d.rng.Intn(3) == 0 {
+			k := d.keys[d.rng.Intn(isoNK)]
+			rk = pad(65536+len(k), k+":") // would alias k behind a 16-bit length prefix
+		} else {
+			rk = pad(lens[d.rng.Intn(len(lens))], "zzp")
+		}
+		kl = len(rk)
+		key := table + ":" + rk
+		kf = len(key)
+		if d.compact && kl <= 10240 {
+			// wait_compact: such a collection can be written but not emptied again (open
+			// finding C13-compact-long-key-scan: HDEL/HSCAN refuse the version-encoded key),
+			// so the probe could not be cleaned up
+			return
+		}
+		switch ty {
+		case 2:
+			r = d.wd.apply("hset", key, "f", "v1")
+			d.wd.apply("hdel", key, "f")
+		case 3:
+			r = d.wd.apply("rpush", key, "v1")
+			d.wd.apply("lpop", key)
+		case 4:
+			r = d.wd.apply("sadd", key, "m")
+			d.wd.apply("srem", key, "m")
+		case 5:
+			r = d.wd.apply("zadd", key, "1", "m")
+			d.wd.apply("zrem", key, "m")
+		}
+	case kind < 8: // sub-key length
+		ty := []int{2, 4, 5}[d.rng.Intn(3)]
+		u = isoTup(ty, t, 1)
+		sl = []int{10239, 10240, 10241}[d.rng.Intn(3)]
+		kl = len("zz-probe")
+		key, sub := table+":zz-probe", pad(sl, "s")
+		kf = len(key)
+		switch ty {
+		case 2:
+			r = d.wd.apply("hset", key, sub, "v1")
+			d.wd.apply("hdel", key, sub)
+		case 4:
+			r = d.wd.apply("sadd", key, sub)
+			d.wd.apply("srem", key, sub)
+		case 5:
+			r = d.wd.apply("zadd", key, "1", sub)
+			d.wd.apply("zrem", key, sub)
+		}
+	default: // value length (8 MiB)
+		vl = 8388608 - 1 + d.rng.Intn(3)
+		key := table + ":zz-probe"
+		kl, kf = len(key), len(key)
+		r = d.wd.apply("set", key, pad(vl, "v"))
+		d.wd.apply("del", key)
+	}
+	rr := 0
+	if _, bad := r.(error); bad {
+		rr = -998
+	}
+	d.nProbe++
+	d.emit("limit", u, kl, sl, rr, []int{vl, kf})
+}
+
 func (d *isoDrv) step() {
+	if d.probeEvery > 0 && d.rng.Intn(d.probeEvery) == 0 {
+		d.limitProbe()
+		return
+	}
 	if d.bulkEvery > 0 && d.rng.Intn(d.bulkEvery) == 0 {
 		d.bulkClear()
 		return
@@ -473,6 +574,7 @@ func isosim(args []string) error {
 	longLen := fs.Int("long", 9900, "length of the shared prefix of the long names")
 	tabsel := fs.Int("tables", -1, "force the table triple (-1: by seed)")
 	bulkEvery := fs.Int("bulk", 0, "one step in N is a > 5 000-element clear episode (0 = none)")
+	probeEvery := fs.Int("probe", 25, "one step in N is a limit probe (0 = none)")
 	burst := fs.Bool("burst", false, "local policy: start every world with keys of three types expiring in one pass")
 	expire := fs.Bool("expire", true, "local policy: include expire commands and the expiry pass")
 	fs.Parse(args)
@@ -500,7 +602,7 @@ func isosim(args []string) error {
 			usable = append(usable, i)
 		}
 	}
-	d := &isoDrv{wd: wd, rng: rng, local: pol == common.LocalDeletion && *expire, byOp: map[string]int{}, touched: map[int]bool{}, bulkEvery: *bulkEvery, watchdog: 120 * time.Second}
+	d := &isoDrv{wd: wd, rng: rng, local: pol == common.LocalDeletion && *expire, byOp: map[string]int{}, touched: map[int]bool{}, bulkEvery: *bulkEvery, probeEvery: *probeEvery, compact: pol == common.WaitCompact, watchdog: 120 * time.Second}
 	if *et == "mem" {
 		d.watchdog = 20 * time.Second // the engine the recorded deadlock is about
 	}
@@ -598,6 +700,6 @@ func isosim(args []string) error {
 	}
 	summary(trace.M{"driver": "isosim", "eng": *et, "policy": *policy, "segments": *nseg, "commands": d.ncmd,
 		"by_op": d.byOp, "tuples_dumped_per_command": 5 * isoNT * isoNK, "dumps": d.ncmd, "errors": d.nErr,
-		"panics": wd.panics, "bulk_clears": d.nBulk, "pools": pu, "table_sets": tu, "applied": wd.napply})
+		"panics": wd.panics, "bulk_clears": d.nBulk, "limit_probes": d.nProbe, "pools": pu, "table_sets": tu, "applied": wd.napply})
 	return nil
 }
